@@ -331,6 +331,9 @@ def w_ctor(case):
         elif kind == 'CompH':
             subs.append(chi.ComposedPopulationModel(
                 [chi.HeterogeneousModel(n_dim=d, n_ids=n)]))
+        elif kind == 'RedH':
+            subs.append(chi.ReducedPopulationModel(
+                chi.HeterogeneousModel(n_dim=d, n_ids=n)))
         elif kind == 'G':
             subs.append(chi.GaussianModel(n_dim=d))
         else:
@@ -341,10 +344,19 @@ def w_ctor(case):
     facts = [check_pop(m, viol, lab + ' as constructed')]
     n_max = max(n for _, _, n in case['subs'])
     if not viol and m.n_ids() != n_max:
+        beh = 'ctor_n_ids'
+        others_max = max([n for kd, _, n in case['subs'] if kd != 'RedH'] or [1])
+        red = [s_ for s_ in subs if isinstance(s_, chi.ReducedPopulationModel)]
+        if red and m.n_ids() == others_max and all(
+                s_.n_ids() == 1 and s_.get_population_model().n_ids() >= 1
+                for s_ in red):
+            # known finding F-C17-reduced-n-ids: the wrapper reports one individual
+            # whatever its wrapped model holds, and the composition counts with that
+            beh = 'reduced_n_ids'
         viol.append({'sub': 'ctor_n_ids', 'message': 'composed model does not model '
                      'the number of individuals its sub-models were constructed for '
                      '(%s)' % lab, 'expected': n_max, 'observed': m.n_ids(),
-                     'behaviour': 'ctor_n_ids'})
+                     'behaviour': beh})
     for k, n in enumerate(case['then']):
         if viol:
             break
@@ -673,6 +685,19 @@ def build(tier, seed):
     for spec in structs:
         for n_ids in range(1, max_ids + 1):
             hc.append(hier.make_case(spec, n_ids, seed))
+    # reduced wrappers created and fixed for one individual, around compositions
+    # with a heterogeneous dimension; the likelihood sets the number of individuals
+    for base in (rp.Comp([rp.H(1), rp.G(2, False)]), rp.Comp([rp.G(1), rp.H(1),
+                                                              rp.P(1)]),
+                 rp.Comp([rp.LN(1), rp.H(2)])):
+        for n_ids in (2, 3):
+            full = popvals.top_values(base, n_ids, seed, positive=True)
+            for i_ in range(rp.n_top(base, n_ids)):
+                spec = rp.Red(base, {i_: full[i_]})
+                if popbuild.build_early(spec, n_ids) is not None:
+                    c_ = hier.make_case(spec, n_ids, seed)
+                    c_['early'] = True
+                    hc.append(c_)
     if tier == 'thorough':
         # 4-dimensional bottom level (two-parameter error model)
         for spec in hier.structures(4, hier.KINDS6):
@@ -747,7 +772,7 @@ def build(tier, seed):
     ctor = []
     # (a covariate model around a heterogeneous model has no subpopulation
     # distribution to shift and is not part of the alphabet, cf. hier.KINDS)
-    sub_kinds = [('H', 1), ('CompH', 1), ('H', 2)]
+    sub_kinds = [('H', 1), ('CompH', 1), ('RedH', 1), ('H', 2)]
     for k in (2, 3):
         for kinds_ in itertools.product(sub_kinds, repeat=k - 1):
             for ns in itertools.product((1, 2, 3), repeat=k - 1):
@@ -756,9 +781,9 @@ def build(tier, seed):
                 for pos in range(k):
                     subs = [[kd[0], kd[1], n] for kd, n in zip(kinds_, ns)]
                     subs.insert(pos, ['G', 2, 1])
-                    thens = [[], [1], [2], [3], [2, 1], [3, 2]]
+                    thens = [[], [1], [2], [3], [2, 1], [3, 2], [3, 1]]
                     for then in (thens if tier == 'thorough' or k == 2
-                                 else thens[:4]):
+                                 else thens[:4] + thens[6:]):
                         ctor.append({'subs': subs, 'then': then})
     return {
         'parts': [
